@@ -135,14 +135,16 @@ CHECKS["C02"] = dict(
 CHECKS["C20"] = dict(
     text="Self-composition over the real code: trait-API handle_layer (create / update / keep / recreate / metadata migration, with a result "
          "carrying two process-scoped env deltas plus a launch delta, two exec.d programs and two SBOMs) and the struct-API writers "
-         "write_exec_d_programs / write_sboms are executed from MIR twice on two copies of one arbitrary symbolic layers directory; in the "
+         "write_exec_d_programs / write_sboms (exec.d program names plain or nested with a shared final component) are executed from MIR twice on "
+         "two copies of one arbitrary symbolic layers directory, and the build phase entry point libcnb_runtime (result: launch.toml with three "
+         "processes incl. a repeated type and a label, store.toml, three SBOM files) twice on two copies of a valid platform input; in the "
          "second run every HashMap iteration and every directory listing is permuted by a solver-chosen permutation. The solver decides "
          "that both runs end in the same result class and, when they succeed, in node-for-node identical post-states (file kinds, "
          "contents, toml trees). Any clock/randomness/pid/temp-name call has no summary, so reaching one is inconclusive. Six fresh "
          "processes of the real build (fresh hash seeds) are compared byte for byte as validation.",
     design_ref="DESIGN.md §5 C20",
     technique="self-composition by symbolic execution of rustc MIR (mirsym) with solver-chosen iteration permutations + z3; repeated real runs in fresh processes",
-    note="Phase outputs (launch.toml, store.toml, build plan) are not self-composed yet; toml text layer outside (trees compared). " + BASE_NOTE)
+    note="The detect phase's build plan is not self-composed (no collection is iterated there); toml text layer outside (ordered trees compared). " + BASE_NOTE)
 
 CHECKS["C08"] = dict(
     text="Bounded model checking of the derived Deserialize MIR (deserialize, visit_map, __FieldVisitor::visit_str, defaults, "
